@@ -55,6 +55,15 @@ CLAIMED = {
     note="Two concrete values per parameter; one object of each kind; constant mock rates; in-place edits of shared objects and user-defined models are out of scope; histories longer than the depth bound only sampled.",
     technique="TLA+ wiring/caching state machine model-checked by TLC; explored histories replayed on the real scene vs fresh build",
     design="4.1"),
+ "C18": dict(
+    text="LaserObjects.tla models the four laser profiles and two laser spectra as parameters + eagerly recomputed derived state (energy-density function, polarisation function, "
+         "binned spectrum) with valid and invalid setters and pure reads, and specifies the admissible exact tilings of the laser length into segments over rationals. TLC explores all "
+         "histories to depth 3 (4 thorough); each edge is replayed on the real object (profiles attached to a real Laser node) and compared with a freshly constructed one; on the "
+         "final object the segments are checked against the spec's tilings and the documented identities (cross-section integral = Ep/(c tau), trivariate volume integral = Ep, "
+         "per-bin power = integral of the PSD, reported range) are evaluated numerically.",
+    note="Integrals by tensor trapezoid quadrature (1e-8 / 1e-7); two values per parameter; the number of segments may be floor(L/2r) or one less (floating-point floor), both tile exactly.",
+    technique="TLA+ setter state machine + rational tiling, TLC exhaustive edges replayed vs fresh object; numeric identities on final objects",
+    design="4.18"),
 }
 
 NOT_YET = {}
